@@ -95,6 +95,22 @@ pub fn run(args: &Args, rep: &mut Report) {
             }
         }
     }
+    for (i, text) in corpus().iter().enumerate() {
+        if (i as u64) % args.of.max(1) != args.worker {
+            continue;
+        }
+        let Ok(ast) = lib_parse(text) else { continue };
+        if !denotable(&ast) {
+            continue;
+        }
+        let hol = if has_holiday_selector(&ast) { HolSpec::Country("FR".into()) } else { HolSpec::None };
+        let mut r = Rng::new(args.seed, 0xc0c0, i as u64);
+        rep.evaluations += 1;
+        match check(&ast, &hol, &mut r) {
+            Ok(_) => rep.count("corpus_expressions_checked"),
+            Err(msg) => rep.violation("normalization_idempotence", format!("{text:?} (from the repository's sample/test sources): {msg}"), json!({"expr": text, "holidays": hol.to_string()}), known::explained_by(&args.known, &ast)),
+        }
+    }
     rep.require("expressions_checked", 20_000);
     rep.require("normal_form_differs_from_input", 5_000);
 }
